@@ -124,7 +124,21 @@ impl PropImpl for C08 {
         while t.more(ops.len(), 0, 12, 3, 4) {
             // names mostly from those present
             let present: Vec<String> = paras[target].iter().map(|x| x.0.clone()).collect();
-            let name = if !present.is_empty() && t.chance(3, 4) { t.pick(&present).clone() } else { doc::gen_name(t, true) };
+            let name = if !present.is_empty() && t.chance(1, 8) {
+                // a name related to one that is present: dpkg's user-defined prefixes in front of it, a suffix, or its stem
+                let base = t.pick(&present).clone();
+                match t.below(4) {
+                    0 => format!("{}{}", *t.pick(&["X-", "XS-", "XB-", "XC-", "XBS-"]), base),
+                    1 => format!("{}-List", base),
+                    2 => base.trim_start_matches(|c: char| c == 'X' || c == 'S' || c == 'B' || c == 'C').trim_start_matches('-').to_string(),
+                    _ => base.rsplit_once('-').map(|x| x.0.to_string()).unwrap_or(base),
+                }
+            } else if !present.is_empty() && t.chance(3, 4) {
+                t.pick(&present).clone()
+            } else {
+                doc::gen_name(t, true)
+            };
+            let name = if name.is_empty() || name.starts_with('-') || name.starts_with('#') { "N".to_string() } else { name };
             ops.push(match t.below(4) {
                 0 => Op::Set(name, gen_value(t)),
                 1 => Op::Insert(name, gen_value(t)),
